@@ -41,6 +41,7 @@ type oblResult struct {
 	R     SolveResult
 	SMT   string
 	Light string
+	Focus string
 }
 
 // runUnits solves all obligations of the given units in parallel.
@@ -72,6 +73,10 @@ func runUnits(v *Verifier, units []*Unit, dir string, quickT, longT int, all boo
 		if j.o.Expect != "sat" && len(j.u.Q.quantDefs) > 0 {
 			lp, _ := v.writeQuery(j.u, j.o, dir, "ALL", true)
 			results[i].Light = lp
+			if len(j.u.Q.quantDefs) > 6 {
+				fp, _ := v.writeQueryMode(j.u, j.o, dir, "ALL", "focused")
+				results[i].Focus = fp
+			}
 		}
 	}
 	var wg sync.WaitGroup
@@ -93,6 +98,14 @@ func runUnits(v *Verifier, units []*Unit, dir string, quickT, longT int, all boo
 				if lr.Verdict == "unsat" {
 					lr.Solver += "/light"
 					results[i].R = lr
+					return
+				}
+			}
+			if results[i].Focus != "" {
+				fr := runSolver(context.Background(), solvers[0], results[i].Focus, 6)
+				if fr.Verdict == "unsat" {
+					fr.Solver += "/focused"
+					results[i].R = fr
 					return
 				}
 			}
@@ -129,6 +142,16 @@ func cmdUnit(args []string) {
 	}
 	sort.Strings(keys)
 	for _, pat := range fs.Args() {
+		if strings.HasPrefix(pat, "lemma:") {
+			for _, lm := range v.db.Lemmas {
+				if strings.Contains(lm.Name, pat[6:]) {
+					u := v.lemmaUnit(lm)
+					units = append(units, u)
+					fmt.Printf("lemma %s: %d obligations, err=%q\n", lm.Name, len(u.Obls), u.Err)
+				}
+			}
+			continue
+		}
 		for _, k := range keys {
 			if strings.Contains(k, pat) && v.inRepo(v.fnByKey[k]) && (v.fnByKey[k].Parent() == nil || v.db.Funcs[k] != nil) {
 				fn := v.fnByKey[k]
